@@ -184,6 +184,16 @@ def shrink(c):
         yield d
 
 
+# functions of the implementation this property is anchored in: their line coverage under the correspondence cases is
+# measured on the staged copy and reported in the evidence (implementation_line_coverage)
+ANCHORS = [
+    "datascope/importance/shapley.py:ShapleyImportance._shapley_neighbor",
+    "datascope/importance/shapley.py:compute_shapley_1nn_mapfork",
+    "datascope/importance/shapley.py:get_unit_labels_and_distances",
+    "datascope/importance/shapley.py:get_test_batch_size",
+    "datascope/importance/shapley.py:compute_all_importances",
+]
+
 MANIFEST = {
     "text": "Proof: C01_kernel_is_shapley (the kernel's backward recurrence at every rank equals the Shapley value of "
             "the 1-NN game, all n, all orders, all utilities), C01_neighbor_is_shapley (any number of validation "
